@@ -181,33 +181,63 @@ def run(ctx: Any, prog: Program) -> None:
         raise AnalysisError('Tokenizer._handle_string: expected exactly one accumulator list')
     acc = next(iter(init_lists))
 
-    def iterate(inputs: List[Any], allow: bool = True, have: List[Any] = ()) -> Any:
-        m = Machine(tk, fold, inputs, init_env, {'allow_escapes': allow, 'line_num': 1}, {acc: list(have)})
+    def iterate(inputs: List[Any], allow: bool = True, have: List[Any] = (), env: Any = None) -> Any:
+        m = Machine(tk, fold, inputs, init_env if env is None else env, {'allow_escapes': allow, 'line_num': 1}, {acc: list(have)})
         return m.run_body(loop.body, in_loop=True)
-
-    def state(out: Any) -> Dict[str, Any]:
-        # loop-carried state = the variables initialised before the loop; every iteration is started from these only,
-        # so a read of any other carried local would already have failed as an unknown name
-        return {k: out.env.get(k) for k in init_env}
 
     def show(c: Any) -> str:
         return repr(c)
 
+    # Induction over the unit decomposition of escape_text(s): the set of loop-carried handler states reachable by
+    # reading units is computed as a fixed point (state = the locals that some iteration reads before writing);
+    # from every reachable state every unit must append exactly its original character and consume exactly itself.
+    reachable_states: Dict[str, int] = {}
     for mode, S in (('single-line', S1), ('multiline', Sm)):
-        for c in alphabet:
-            if c is not OTHER and c in S:
-                rep = INV[c]
-                out = iterate(list(rep))
-                ok = (out.kind == 'next' and out.lists.get(acc) == [c] and state(out) == init_env
-                      and out.consumed == 2 and out.rewinds == 0)
-                ctx.check('C02.T3', ok, tk, loop, f'{mode}: unit {rep!r} must decode to {c!r}, consume 2 chars and return to the initial state; got {out!r}',
-                          text=f'{mode} escaped unit {rep!r}')
+        live = set(init_env)
+        while True:
+            seen = set()
+            work = [dict(init_env)]
+            grew = False
+            results = []
+            while work and not grew:
+                st = work.pop()
+                key = repr(sorted((k, repr(st.get(k))) for k in live))
+                if key in seen:
+                    continue
+                seen.add(key)
+                if len(seen) > 400:
+                    raise AnalysisError('Tokenizer._handle_string: more than 400 loop-carried states; not a finite-state handler')
+                for c in alphabet:
+                    escaped = c is not OTHER and c in S
+                    unit = list(INV[c]) if escaped else [c]
+                    out = iterate(unit, env=st)
+                    if out.reads_before_write - live - {acc}:
+                        live |= out.reads_before_write - {acc}
+                        grew = True
+                        break
+                    ok = (out.kind == 'next' and out.lists.get(acc) == [c] and out.consumed == len(unit) and out.rewinds == 0)
+                    results.append((st, c, escaped, unit, out, ok))
+                    if out.kind == 'next':
+                        work.append(dict(out.env))
+            if not grew:
+                break
+        reachable_states[mode] = len(seen)
+        # report one instance per (mode, unit): ok iff it holds from every reachable state
+        per_unit: Dict[str, Any] = {}
+        for st, c, escaped, unit, out, ok in results:
+            k = repr(c)
+            cur = per_unit.get(k)
+            if cur is None or (cur[0] and not ok):
+                per_unit[k] = (ok, st, c, escaped, unit, out)
+        for k, (ok, st, c, escaped, unit, out) in per_unit.items():
+            stdesc = {a: st.get(a) for a in sorted(live)}
+            if escaped:
+                ctx.check('C02.T3', ok, tk, loop, f'{mode}: unit {"".join(unit)!r} read in handler state {stdesc} must append {c!r} and consume exactly 2 characters; got {out!r}',
+                          text=f'{mode} escaped unit {"".join(unit)!r}')
             else:
-                out = iterate([c])
-                ok = (out.kind == 'next' and out.lists.get(acc) == [c] and state(out) == init_env
-                      and out.consumed == 1 and out.rewinds == 0)
-                ctx.check('C02.T3', ok, tk, loop, f'{mode}: raw character {show(c)} is left unescaped by escape_text, so the handler must append it '
-                          f'unchanged, consume 1 char and stay in the initial state; got {out!r}', text=f'{mode} raw char {show(c)}')
+                ctx.check('C02.T3', ok, tk, loop, f'{mode}: raw character {show(c)} is left unescaped by escape_text, so read in handler state {stdesc} it must be appended '
+                          f'unchanged, consuming exactly 1 character; got {out!r}', text=f'{mode} raw char {show(c)}')
+    ctx.note(f'handler loop-carried states reachable over unit sequences: {reachable_states}')
 
     # T4: closing quote
     out = iterate(['"'], have=['x', OTHER])
